@@ -455,6 +455,9 @@ func runL2C(seed int64, n int, dir string) error {
 		fmt.Fprintf(cw, "%d probe rejected-at-storage-leaves-no-table\n", id)
 		fmt.Fprintf(iw, "%d %s\n", id, probeRejectedAtStorage())
 	}
+	id++
+	fmt.Fprintf(cw, "%d probe argument-order-does-not-matter\n", id)
+	fmt.Fprintf(iw, "%d %s\n", id, probeArgOrder())
 	sf, _ := os.Create(dir + "/stats.txt")
 	defer sf.Close()
 	keys := make([]string, 0, len(stats))
